@@ -698,6 +698,32 @@ class Gen:
         return {"k": "config", "contraction": bool(self.p(0.5))}
 
     # ------------------------------------------------------------------ main
+    def _maybe_reuse(self, st):
+        """An Operation is a reusable description: with some probability apply an operation object that an earlier
+        step of this program already used (same description, other targets of the same kinds, e.g. Focks of other
+        dimensions) instead of a fresh one. Runner caches the object under op_id."""
+        seen = getattr(self, "ops_seen", None)
+        if seen is None:
+            seen = self.ops_seen = []
+        sp = st["op"]
+        if sp["fam"] != "comp" and sp["type"] not in ("Custom", "Expresion"):
+            fits = [(j, o) for j, o in enumerate(seen) if o["fam"] == sp["fam"] and o["fam"] != "comp"
+                    and o["type"] not in ("Custom", "Expresion")]
+        elif sp["fam"] == "comp" and sp["type"] == "Expression" and "X" not in sp["state_types"]:
+            fits = [(j, o) for j, o in enumerate(seen) if o["fam"] == "comp" and o["type"] == "Expression"
+                    and o["state_types"] == sp["state_types"]]
+        elif sp["fam"] == "comp" and sp["type"] != "Expression":
+            fits = [(j, o) for j, o in enumerate(seen) if o["fam"] == "comp" and o["type"] == sp["type"]]
+        else:
+            fits = []
+        if fits and self.rng.random() < self.opts.get("op_reuse", 0.25) * 2:
+            j, o = fits[int(self.rng.integers(0, len(fits)))]
+            st["op"] = o
+            st["op_id"] = j
+        else:
+            seen.append(sp)
+            st["op_id"] = len(seen) - 1
+
     def multi_ce_prefix(self, v):
         """scripted prefix: partition the world into 2-3 groups and build one composite envelope per group"""
         w = v["w"]
@@ -740,6 +766,8 @@ class Gen:
             except Malformed:
                 st = None
             if st:
+                if st["k"] == "apply" and self.opts.get("op_reuse", 0.25) and "op_id" not in st:
+                    self._maybe_reuse(st)
                 self.focus = set(st.get("targets", []))
                 for t in list(self.focus):
                     pt = v["w"].partner(t)
